@@ -22,6 +22,17 @@ CHECKS = {
     ref='6/C13',
     technique='Coq proof (induction over text/spans) + extracted-model '
               'differential check + declarative reference oracle'),
+ 'C20': dict(
+    text='complete for the single-letter check (sound, complete, once, hits are '
+         'occurrences of accepted patterns), for offset/length/context '
+         'agreement and for the structure of the equation check (messages = '
+         'rejected leftmost matches, none skipped); the equation matcher is a '
+         'deterministic transcription of the regular expression whose '
+         'equivalence with the backtracking engine is validated by the '
+         'correspondence run (exhaustive small texts), not yet by a theorem',
+    ref='6/C20',
+    technique='Coq proof over the model of checks.py + extracted-model '
+              'differential check + reference oracle + shell runs'),
 }
 
 NOT_YET = {}
